@@ -5,6 +5,7 @@ import json, os, shutil, subprocess, sys
 ROOT = os.path.dirname(os.path.dirname(os.path.abspath(__file__)))
 pid, src = sys.argv[1], sys.argv[2]
 extra = sys.argv[3].split(",") if len(sys.argv) > 3 and sys.argv[3] else []
+offset = int(sys.argv[4]) if len(sys.argv) > 4 else 0  # round 2 patches are stored as <ID>-4..6
 out = os.path.join(src, "OUT")
 metas = {}
 try:
@@ -16,7 +17,7 @@ for n in (1, 2, 3):
     pf = os.path.join(out, "patch%d.diff" % n)
     if not os.path.exists(pf):
         continue
-    dst = os.path.join(ROOT, "seeded", "%s-%d" % (pid, n))
+    dst = os.path.join(ROOT, "seeded", "%s-%d" % (pid, n + offset))
     os.makedirs(dst, exist_ok=True)
     shutil.copy(pf, os.path.join(dst, "patch.diff"))
     dm = os.path.join(out, "demo%d.md" % n)
@@ -31,7 +32,7 @@ for n in (1, 2, 3):
         if line.startswith("RESULT "):
             res = json.loads(line[7:])
         elif line.split(" ")[0] in ("CAUGHT", "MISSED", "INCONCLUSIVE", "PATCH-DOES-NOT-APPLY"):
-            print("%s-%d %s" % (pid, n, line))
+            print("%s-%d %s" % (pid, n + offset, line), flush=True)
     if not res:
         print(p.stdout[-1500:], p.stderr[-500:])
     meta["checks"] = res
